@@ -222,6 +222,36 @@ impl IntoSqlBuilder for NegList {
     }
 }
 
+/// Whether the expression is a single primary - a literal, an identifier, a parenthesised
+/// expression, a list, an object, a call or another cast - which `::` applies to as a whole.
+fn is_cast_operand(expr: &rscel::AstNode<Expr>) -> bool {
+    let Expr::Unary(or) = expr.node() else {
+        return false;
+    };
+    let ConditionalOr::Unary(and) = or.node() else {
+        return false;
+    };
+    let ConditionalAnd::Unary(rel) = and.node() else {
+        return false;
+    };
+    let Relation::Unary(add) = rel.node() else {
+        return false;
+    };
+    let Addition::Unary(mul) = add.node() else {
+        return false;
+    };
+    let Multiplication::Unary(unary) = mul.node() else {
+        return false;
+    };
+    let Unary::Member(member) = unary.node() else {
+        return false;
+    };
+    let member = member.node();
+    member.member.is_empty()
+        || (member.member.len() == 1
+            && matches!(member.member[0].node(), MemberPrime::Call { .. }))
+}
+
 impl IntoSqlBuilder for Member {
     fn into_sql_builder(&self) -> Result<Box<dyn SqlBuilder>, ToSqlError> {
         let primary_builder = self.primary.into_sql_builder()?;
@@ -256,8 +286,17 @@ impl IntoSqlBuilder for Member {
                     if let Some(cast_type) = sql_type {
                         // This is a type casting operation
                         if args.len() == 1 {
+                            let value = args.remove(0);
+                            // `::` binds tighter than every operator: a composite operand
+                            // takes the cast as a whole only inside parentheses
+                            let value: Box<dyn SqlBuilder> =
+                                if is_cast_operand(&call.node().exprs[0]) {
+                                    value
+                                } else {
+                                    Box::new(ParensBuilder { inner: value })
+                                };
                             return Ok(Box::new(CastBuilder {
-                                value: args.remove(0),
+                                value,
                                 cast_type: StaticSqlBuilder::boxed(cast_type),
                             }));
                         } else if args.is_empty() {
